@@ -889,3 +889,38 @@ func maskB(w int) uint64 {
 }
 
 var _ = bits.Len
+
+// Rebuild constructs a term with the same operator as t over new arguments (through the simplifying constructors).
+func (c *TermCtx) Rebuild(t *Term, a []*Term) *Term {
+	switch t.Op {
+	case OpNot:
+		return c.Not(a[0])
+	case OpAnd:
+		return c.And(a[0], a[1])
+	case OpOr:
+		return c.Or(a[0], a[1])
+	case OpEq:
+		return c.Eq(a[0], a[1])
+	case OpIte:
+		return c.Ite(a[0], a[1], a[2])
+	case OpBNot:
+		return c.BNot(a[0])
+	case OpNeg:
+		return c.Neg(a[0])
+	case OpULt, OpULe, OpSLt, OpSLe:
+		return c.Cmp(t.Op, a[0], a[1])
+	case OpZExt:
+		return c.ZExt(a[0], t.W)
+	case OpSExt:
+		return c.SExt(a[0], t.W)
+	case OpExtract:
+		return c.Extract(a[0], t.Hi, int(t.V))
+	case OpConcat:
+		return c.Concat(a[0], a[1])
+	case OpUF:
+		return c.UF(t.Name, t.W, a...)
+	case OpConst, OpVar:
+		return t
+	}
+	return c.Bin(t.Op, a[0], a[1])
+}
